@@ -58,6 +58,9 @@ CHECKS = {
  "C20": ("engine-b", "model_checking", B,
          "for reader-built base netlists of all three formats: faithful copies (second parse of the same text, clone, write-then-read in the own format) must compare equal; every single structural mutation of a copy - each port direction, width +-1, array-ness, each cable width +-1, each connection moved to every other free pin (other bit / other port / other instance), dropped connections, re-pointed instances, property values, one library/definition/port/cable/instance added or dropped - must make Comparer.compare() raise",
          "bounded: 5 base netlists, every single mutation of each (several hundred per base); the copy is the second parse of the same text"),
+ "C07": ("engine-b", "model_checking", B,
+         "every element (netlist, library, definition, instance, port, cable, wire, inner pin, outer pin) of every design of the input space (F_hier incl. two libraries, instance outside the top hierarchy, top instance also a child, unnamed elements, nested user data) is cloned; a parallel walk pairs original and copy and every link of the copy must be the image of the original's link or cut where it leaves the cloned sub-tree (nothing points into the original, reference sets as documented, data deep-copied, source unchanged apart from documented reference-set additions); netlist copies: closure, well-formedness, agreement of all flat and hierarchical queries; then every edit tail (12-operation alphabet incl. uniquify and flatten, length <= 1 / <= 2) on the copy or the original leaves the other's fingerprint unchanged",
+         "bounded: quick = K1/K8 with all wirings + first wirings of the other skeletons, thorough = whole family; expected shape of element clones per the clone() docstrings"),
 }
 m = {
  "version": 1,
